@@ -22,6 +22,8 @@ import (
 type c05Fault struct {
 	Kind string // none prov-err aggr-open aggr-err aggr-drop gun-new bind warmup shot-panic sched-shared sched-inst
 	Pos  int
+	// CtxKind: the component fails with its own timeout (cause context.DeadlineExceeded), not a plain error
+	CtxKind bool
 }
 
 type c05Pool struct {
@@ -37,7 +39,7 @@ type c05Pool struct {
 }
 
 func (p c05Pool) String() string {
-	return fmt.Sprintf("{inst=%d tokens=%d perInst=%v items=%d shot=%v closable=%v fault=%s@%d}", p.Inst, p.Tokens, p.PerInstance, p.Items, p.ShotDur, p.Closable, p.Fault.Kind, p.Fault.Pos)
+	return fmt.Sprintf("{inst=%d tokens=%d perInst=%v items=%d shot=%v closable=%v fault=%s@%d ctxkind=%v}", p.Inst, p.Tokens, p.PerInstance, p.Items, p.ShotDur, p.Closable, p.Fault.Kind, p.Fault.Pos, p.Fault.CtxKind)
 }
 
 var c05Kinds = []string{"none", "prov-err", "aggr-open", "aggr-err", "aggr-drop", "gun-new", "bind", "warmup", "shot-panic", "sched-shared", "sched-inst"}
@@ -103,6 +105,9 @@ func c05GenPool(w, f *simrt.Stream, faultHere bool, kindForced string) c05Pool {
 			p.Fault.Pos = f.Draw(p.Inst)
 		case "sched-shared":
 			p.PerInstance = false
+		}
+		if k == "prov-err" || strings.HasPrefix(k, "aggr-") {
+			p.Fault.CtxKind = f.Draw(4) == 0
 		}
 	}
 	return p
@@ -187,8 +192,10 @@ func runC05(r *R) {
 			rt.prov.Block = ps.ProvBlock && cancelPhase >= 2
 			if ps.Fault.Kind == "prov-err" {
 				rt.prov.ErrAt = ps.Fault.Pos
+				rt.prov.CtxKind = ps.Fault.CtxKind
 			}
 			rt.aggr = stubs.NewScriptAggregator(rt.log, ps.QLen)
+			rt.aggr.CtxKind = ps.Fault.CtxKind
 			switch ps.Fault.Kind {
 			case "aggr-open":
 				rt.aggr.OpenErr = true
